@@ -42,6 +42,12 @@ def main(argv=None):
 
 
 if __name__ == "__main__":
+    import signal
+
+    try:
+        signal.signal(signal.SIGPIPE, signal.SIG_DFL)
+    except Exception:  # noqa: BLE001
+        pass
     try:
         rc = main()
     except SystemExit:
